@@ -651,9 +651,40 @@ def make_histories(ctx):
     hs = [("corpus", h) for h in corpus()]
     hs += [("pairs", h) for h in mode_pair_histories(ctx.tier)]
     hs += [("fault", h) for h in fault_histories(rnd, ctx.tier)]
-    n_rand = 150 if ctx.tier == "quick" else 4000
+    n_rand = 120 if ctx.tier == "quick" else 4000
     hs += [("random", random_history(rnd)) for _ in range(n_rand)]
     return hs
+
+
+def refutations(ctx):
+    """compile every block of props/C14_refuted.v on its own; {signature: refuted on the model?}"""
+    import re
+    from concurrent.futures import ThreadPoolExecutor
+    src = open(core.COQ + "/props/C14_refuted.v").read()
+    parts = re.split(r"\(\* ---- refutation: (\S+) ---- \*\)\n", src)
+    header, rest = parts[0], parts[1:]
+    jobs = []
+    for k, (sig, block) in enumerate(zip(rest[0::2], rest[1::2])):
+        path = os.path.join(ctx.build, "cases", f"C14_refuted_{k}.v")
+        with open(path, "w") as f:
+            f.write(header + "\n" + block)
+        jobs.append((sig, path, core.count_obligations(path)))
+    gate = core.grep_gate([core.COQ + "/props/C14_refuted.v"])
+    if gate:
+        ctx.broken("axiom-gate:C14_refuted.v", "; ".join(gate[:5]))
+        return {}
+    with ThreadPoolExecutor(max_workers=8) as ex:
+        results = list(ex.map(lambda j: ctx.coqc(j[1]), jobs))
+    out = {}
+    for (sig, path, n), (rc, o, e, dt, cmd) in zip(jobs, results):
+        out[sig] = rc == 0
+        if rc == 0:     # a refutation that holds is a discharged obligation; one that does not is "defect gone", not a failure
+            ctx.obligations += n
+            ctx.discharged += n
+            ctx.checker_cmds.append(cmd)
+            for blk in core.parse_assumptions(o):
+                ctx.assumptions_printed.append(f"C14_refuted.v[{sig}]: {blk}")
+    return out
 
 
 def load_recording():
@@ -681,6 +712,10 @@ def run(ctx: core.Ctx):
     proved = False
     if t1_ok:
         proved = ctx.prove([ctx.build + "/gen/C14Facts.v", core.COQ + "/props/C14.v"], dep_theories=deps)
+    refuted = {}
+    if t1_ok and os.path.exists(ctx.build + "/gen/C14Facts.vo"):
+        refuted = refutations(ctx)
+        ctx.log("refuted on the model: " + ", ".join(f"{k.split('/')[1]}={'yes' if v else 'NO'}" for k, v in refuted.items()))
     if not t1_ok or not os.path.exists(ctx.build + "/gen/C14Facts.vo"):
         # the case files need Gen.C14Facts: fall back to the facts of the pinned source so that the search can run
         ctx.gen("C14Facts", open(core.VERIF + "/translate/c14_facts_pinned.v").read())
@@ -801,6 +836,18 @@ def run(ctx: core.Ctx):
                        "implementation_outcomes": cand["obs"], "tables_and_paths_after_last_step": cand["snaps"][-1],
                        "exceptions": cand["exc"][-4:], "spec_outcomes(coq)": spec_says[-1500:],
                        "model_outcomes(coq)": model_says[-1500:], "found_in": cand["src"]})
+    # the refutations and the observed deviations must tell the same story
+    for sig, holds in refuted.items():
+        seen_dev = sig in dev_best or (sig == SIG_PARTIAL and any(b.get("intact") is False for b in big))
+        if holds and not seen_dev:
+            ctx.broken("refutation-not-reproduced", f"{sig}: refuted on the model, but no history of this run shows it on the "
+                       "implementation (model no longer faithful, or the witness shapes are no longer generated)")
+        if not holds and seen_dev:
+            ctx.broken("finding-without-refutation", f"{sig}: observed on the implementation, but its refutation no longer "
+                       "compiles against the regenerated facts")
+        if not holds and not seen_dev:
+            ctx.log(f"known finding {sig} no longer reproduces (neither on the model nor on the implementation): fixed?")
+    ctx.coverage["refuted_on_model"] = refuted
     if model_fail:
         ctx.broken("T3:impl-vs-model", f"{len(model_fail)} histories where the implementation differs from the model inside the "
                    f"model's exact region; first: step {model_fail[0]['step']} {model_fail[0]['op']} of {model_fail[0]['history']}",
